@@ -75,5 +75,5 @@ def evidence(c):
                      'the instrumented clang -O1 build has the same allocation sites and error paths as the shipped build (same sources)',
                      'a block is leaked if nobody has released it when the call has returned and the calling thread has ended and run its exit handlers (memory the library keeps per thread and releases at thread exit is not a leak)',
                      '"dest cleared" is judged as: first element zero and no element differing from both zero and its pre-call value',
-                     'whether the constraint handler is invoked on allocation failure is logged, not demanded (the property does not state it)'],
+                     'a failure caused by a failed allocation must reach the constraint handler at least once ("as for any other violation"; holds for every such failure of the unchanged tree)'],
         wall_s=round(c['wall'], 2), violations=len(c['reported']))
